@@ -3,11 +3,11 @@ import itertools
 from engine import core
 
 INFO = {
-    "outside": 'spki-level histories longer than the listed skeletons; full 20/91-byte key entropy; hash container states with more than 8 (16 in thorough) buckets or more than 3 materialised objects per step; unscaled 64-bucket table beyond 3 inserts',
+    "outside": 'spki_table_copy_except_socket of a non-empty table on its success path (28 GB exhausted, DESIGN.md section 8); spki-level histories longer than the listed skeletons; full 20/91-byte key entropy; hash container states with more than 8 (16 in thorough) buckets or more than 3 materialised objects per step; unscaled 64-bucket table beyond 3 inserts',
     "assumptions": ['allocator never fails (allocation failure is C18)', 'rwlock model'],
 }
 MANIFEST = {
-    "text": 'Two layers, both bounded model checking of the real code. (1) The real ht-spkitable.c + tommyhashlin + tommylist on operation-kind skeletons (add / remove / remove-by-source / reload) from the empty table with every key symbolic -- in particular a free 32-bit AS number, so bucket collisions are found by the solver -- against an array model, with final get_all / search_by_ski queries for an arbitrary (AS, SKI) and the callback recorder. (2) An inductive step on the real tommy_hashlin container: ONE insert / remove / remove_existing from an ARBITRARY valid container state (bucket count, resize state stable/grow/shrink and split position enumerated by the driver; element count and up to 3 objects with free 32-bit hashes symbolic), asserting that the representation invariant is re-established and every object is addressed as specified -- with the init base case this covers histories of any length, including partial shrinks reversed into grows that need dozens of operations to reach.',
+    "text": 'Two layers, both bounded model checking of the real code. (1) The real ht-spkitable.c + tommyhashlin + tommylist on operation-kind skeletons (add / remove / remove-by-source / copy into a fresh table as a reload does) from the empty table with every key symbolic -- in particular a free 32-bit AS number, so bucket collisions are found by the solver -- against an array model, with final get_all / search_by_ski queries for an arbitrary (AS, SKI) and the callback recorder. The swap of two tables is decided structurally (both containers exchanged completely, one write section each). (2) An inductive step on the real tommy_hashlin container: ONE insert / remove / remove_existing from an ARBITRARY valid container state (bucket count, resize state stable/grow/shrink and split position enumerated by the driver; element count and up to 3 objects with free 32-bit hashes symbolic), asserting that the representation invariant is re-established and every object is addressed as specified -- with the init base case this covers histories of any length, including partial shrinks reversed into grows that need dozens of operations to reach.',
     "note": "Bounded: spki histories of <=2 operations in the quick tier (3-5 in thorough; each costs minutes and >10 GB); SKI/SPKI vary in their first and last byte. Container step: 2..8 buckets before the step (hook RTRLIB_VERIF_HASHLIN_BIT=1 scales the minimum from 64 to 2), <=3 materialised objects (2 for the growing insert at 8 buckets); the element-count field is symbolic and only bounded below by the materialised objects.",
     "technique": 'CBMC on real ht-spkitable.c/tommyhashlin.c: skeleton-enumerated histories with symbolic keys + inductive single-step check of the hash container over a symbolic valid state',
 }
